@@ -23,11 +23,11 @@ def run(tier):
                   "adjust_constant_string over all short strings) is not built in this round; two witness programs stand for it",
                   "loops"]
     fam = progs.family_val() + progs.family_val_ctl(3 if tier == "quick" else 4)
-    wit = progs.val_witnesses()
+    wit = progs.val_witnesses() + [w for w in progs.val_witnesses_round2() if not w["known"].startswith("C09")]
     tcommon.drive(r, fam + wit, len(fam), "check_cover", "check_cover_reach", "every concrete value is covered, for all inputs",
                   "semantic", TABLES, tier, chunk=6)
     return r
 
 
 def replay(rec):
-    return tcommon.replay_program(rec, "check_cover", "semantic", TABLES, progs.family_val() + progs.family_val_ctl(4) + progs.val_witnesses())
+    return tcommon.replay_program(rec, "check_cover", "semantic", TABLES, progs.family_val() + progs.family_val_ctl(4) + progs.val_witnesses() + progs.val_witnesses_round2())
